@@ -27,15 +27,17 @@ ASSUMPTIONS = ["removals are enabled only for contained objects; replace_lanelet
 IDS = {"L1": [1], "L2": [2], "L3": [3], "S": [10], "T": [11], "I": [20, 21], "O1": [30], "O2": [31], "O3": [32], "O4": [33],
        "X": [1], "Y": [30], "J": [40, 2], "S2": [10],
        "Z": [32], "D": [10], "P": [11], "E": [20], "M": [33],
-       "K": [40, 41, 40], "S3": [3]}       # an intersection one of whose incomings carries the intersection's own id: never addable, and it must not leave ids behind
+       "K": [40, 41, 40], "S3": [3], "I2": [22, 21]}       # an intersection one of whose incomings carries the intersection's own id: never addable, and it must not leave ids behind
 KIND = {"L1": "lanelet", "L2": "lanelet", "L3": "lanelet", "S": "sign", "T": "light", "I": "intersection", "O1": "static",
         "O2": "dynamic", "O3": "environment", "O4": "phantom", "X": "static", "Y": "sign", "J": "intersection", "S2": "sign",
-        "Z": "light", "D": "dynamic", "P": "phantom", "E": "environment", "M": "lanelet", "K": "intersection", "S3": "sign"}
+        "Z": "light", "D": "dynamic", "P": "phantom", "E": "environment", "M": "lanelet", "K": "intersection", "S3": "sign", "I2": "intersection"}
 REFS = {"L2": {"sign": {10}, "light": {11}}}
 OBST = ["O1", "O2", "O3", "O4", "X", "D", "P", "E"]
 SINGLES = ["L1", "L2", "S", "T", "I", "O1", "O2", "O3", "O4", "X", "Y", "J", "Z", "D", "P", "E", "M", "K"]
 NETS = {"NA": ["L1", "L2", "S", "T", "I"], "NB": ["L3", "S2"],
-        "NC": ["L3", "S3"]}        # a network two of whose own members (of different kinds) carry the same id: never addable
+        "NC": ["L3", "S3"],        # a network two of whose own members (of different kinds) carry the same id: never addable
+        "ND": ["T", "Y"],          # a network WITHOUT lanelets (a light and a sign whose id an obstacle may use): checked like any other network
+        "NF": ["L1", "L2", "I", "I2"]}      # two intersections whose incoming elements share an id (21): never addable
 PAIRS = [["O1", "O2"], ["L1", "L2"], ["S", "T"], ["O3", "X"]]
 
 
@@ -77,6 +79,8 @@ def make(name):
                                                TrafficLightCycleElement(TrafficLightState.GREEN, 3)]))
     if name == "I":
         return Intersection(20, [IntersectionIncomingElement(21, {1}, set(), {2}, set())])
+    if name == "I2":
+        return Intersection(22, [IntersectionIncomingElement(21, {2}, set(), {1}, set())])
     if name == "J":
         return Intersection(40, [IntersectionIncomingElement(2, {1}, set(), set(), set())])
     if name == "S3":
@@ -182,7 +186,8 @@ def enabled(model):
     obstacle_ids = set(i for n in obst for i in IDS[n])
     for net in NETS:
         ids = set(i for n in NETS[net] for i in IDS[n])
-        if not (ids & obstacle_ids) and net != "NC":
+        idl = [i for n in NETS[net] for i in IDS[n]]
+        if not (ids & obstacle_ids) and len(idl) == len(set(idl)):      # (replacing is only enabled with a network that can be added)
             ops.append(["replace", net])
     if not any(KIND[n] in ("lanelet", "sign", "light", "intersection") for n in present):
         # a whole network added to a scenario that has none (obstacles may be there): rejected as a whole, with nothing left behind, when one of
